@@ -16,11 +16,13 @@ import (
 type Effect struct {
 	Instr ssa.Instruction
 	Desc  string
+	Kinds []string // what is changed: "node", "Mast.root", "Mast.size", … (for calls: everything the callee may change)
 }
 
 type effectInfo struct {
 	direct map[*ssa.Function][]Effect
 	trans  map[*ssa.Function]string // why the function is effectful ("" = pure)
+	kinds  map[*ssa.Function]map[string]bool
 }
 
 func (F *Facts) effectsInfo() *effectInfo {
@@ -28,7 +30,7 @@ func (F *Facts) effectsInfo() *effectInfo {
 		return F.eff
 	}
 	A := F.Own()
-	E := &effectInfo{direct: map[*ssa.Function][]Effect{}, trans: map[*ssa.Function]string{}}
+	E := &effectInfo{direct: map[*ssa.Function][]Effect{}, trans: map[*ssa.Function]string{}, kinds: map[*ssa.Function]map[string]bool{}}
 	F.eff = E
 	P := F.P
 	// Mast field stores
@@ -46,7 +48,7 @@ func (F *Facts) effectsInfo() *effectInfo {
 				if _, local := ir.ResolveCell(fa.X).(*ssa.Alloc); local {
 					continue
 				}
-				E.direct[fn] = append(E.direct[fn], Effect{ins, "store to Mast." + ir.FieldName(fa.X.Type(), fa.Field)})
+				E.direct[fn] = append(E.direct[fn], Effect{ins, "store to Mast." + ir.FieldName(fa.X.Type(), fa.Field), []string{"Mast." + ir.FieldName(fa.X.Type(), fa.Field)}})
 			}
 		}
 	}
@@ -57,7 +59,7 @@ func (F *Facts) effectsInfo() *effectInfo {
 		}
 		switch w.Class.Own {
 		case Unshared, Unknown:
-			E.direct[w.Fn] = append(E.direct[w.Fn], Effect{w.Instr, fmt.Sprintf("%s write to .%s of a live node (%s)", w.Kind, w.Field, w.Class.Why)})
+			E.direct[w.Fn] = append(E.direct[w.Fn], Effect{w.Instr, fmt.Sprintf("%s write to .%s of a live node (%s)", w.Kind, w.Field, w.Class.Why), []string{"node"}})
 		}
 	}
 	// calls handing a non-fresh node to a callee that writes its parameter
@@ -71,7 +73,7 @@ func (F *Facts) effectsInfo() *effectInfo {
 				cl := A.Classify(args[idx], cs)
 				if cl.Own == Unshared || cl.Own == Unknown {
 					caller := cs.Parent()
-					E.direct[caller] = append(E.direct[caller], Effect{cs, fmt.Sprintf("call %s, which writes the live node it is given (%s)", fn.Name(), cl.Why)})
+					E.direct[caller] = append(E.direct[caller], Effect{cs, fmt.Sprintf("call %s, which writes the live node it is given (%s)", fn.Name(), cl.Why), []string{"node"}})
 				}
 			}
 		}
@@ -79,6 +81,12 @@ func (F *Facts) effectsInfo() *effectInfo {
 	for fn := range E.direct {
 		sort.Slice(E.direct[fn], func(i, j int) bool { return E.direct[fn][i].Instr.Pos() < E.direct[fn][j].Instr.Pos() })
 		E.trans[fn] = E.direct[fn][0].Desc
+		E.kinds[fn] = map[string]bool{}
+		for _, e := range E.direct[fn] {
+			for _, k := range e.Kinds {
+				E.kinds[fn][k] = true
+			}
+		}
 	}
 	for changed := true; changed; {
 		changed = false
@@ -96,6 +104,24 @@ func (F *Facts) effectsInfo() *effectInfo {
 			}
 		}
 	}
+	for changed := true; changed; {
+		changed = false
+		for _, fn := range P.Funcs {
+			for _, ci := range CallsOf(fn) {
+				for _, c := range F.Callees(ci) {
+					for k := range E.kinds[c] {
+						if E.kinds[fn] == nil {
+							E.kinds[fn] = map[string]bool{}
+						}
+						if !E.kinds[fn][k] {
+							E.kinds[fn][k] = true
+							changed = true
+						}
+					}
+				}
+			}
+		}
+	}
 	return E
 }
 
@@ -107,7 +133,12 @@ func (F *Facts) EffectsIn(fn *ssa.Function) []Effect {
 	for _, ci := range CallsOf(fn) {
 		for _, c := range F.Callees(ci) {
 			if why := E.trans[c]; why != "" {
-				out = append(out, Effect{ci, "call " + c.Name() + " [" + why + "]"})
+				var ks []string
+				for k := range E.kinds[c] {
+					ks = append(ks, k)
+				}
+				sort.Strings(ks)
+				out = append(out, Effect{ci, "call " + c.Name() + " [" + why + "]", ks})
 				break
 			}
 		}
